@@ -179,7 +179,14 @@ def regenerate():
     rc, out2 = sh([sys.executable, os.path.join(VERIF, 'tools', 'gen_equiv.py'), os.path.join(LEAN, 'Proofs', 'GenEquiv.lean')])
     if rc != 0:
         raise RuntimeError('gen_equiv failed:\n' + out2)
-    # the pinned model must be what the translator gives on the pinned tree: checked by `check selftest`
+    # Gauss-Legendre tables (constant tables are part of tie (i))
+    rc, out3 = sh([sys.executable, os.path.join(VERIF, 'tools', 'gltables.py'), os.path.join(REPO, 'kurbo', 'src', 'common.rs'),
+                   os.path.join(LEAN, 'Kurbo', 'Gen', 'GLTables.lean'), '--suffix', '_g'])
+    if rc != 0:
+        raise RuntimeError('gltables failed:\n' + out3)
+    rc, out4 = sh([sys.executable, os.path.join(VERIF, 'tools', 'gen_equiv_gl.py'), os.path.join(LEAN, 'Proofs', 'GenEquivGL.lean')])
+    if rc != 0:
+        raise RuntimeError('gen_equiv_gl failed:\n' + out4)
     return json.load(open(status_file))
 
 
@@ -215,6 +222,26 @@ def gen_equiv_status():
     return status, out
 
 
+def gl_equiv_status():
+    """build Proofs.GenEquivGL; returns {'GL:glN': 'equal' | 'proof-failed'}"""
+    rc, out = lake_build(['Proofs.GenEquivGL'])
+    src = open(os.path.join(LEAN, 'Proofs', 'GenEquivGL.lean')).read().split('\n')
+    at = [(i, m.group(1)) for i, l in enumerate(src, 1) for m in [re.match(r'theorem ge_(gl\w+) :', l)] if m]
+    status = {'GL:' + n: 'equal' for _, n in at}
+    if rc != 0:
+        bad = [int(m.group(1)) for m in re.finditer(r'error: Proofs/GenEquivGL\.lean:(\d+):', out)]
+        if not bad:
+            status = {k: 'proof-failed' for k in status}
+        for bl in bad:
+            owner = None
+            for ln, n in at:
+                if ln <= bl:
+                    owner = n
+            if owner:
+                status['GL:' + owner] = 'proof-failed'
+    return status, out
+
+
 def kernel_closure(patterns):
     """items matching the patterns, closed under 'body mentions a translated method/function name'"""
     sys.path.insert(0, os.path.join(VERIF, 'tools'))
@@ -224,6 +251,8 @@ def kernel_closure(patterns):
     bodies = {}
     for m in re.finditer(r'^def (\S+) .*?:=\n(.*?)\n\n', txt, re.S | re.M):
         bodies[m.group(1)] = m.group(2)
+    gl_names = ['GL:' + n for n in re.findall(r'^def (gl\w+) :', open(os.path.join(LEAN, 'Kurbo', 'GLTables.lean')).read(), re.M)]
+    gl_sel = sorted(n for n in gl_names if any(re.fullmatch(p, n) for p in patterns))
     sel = {n for n in names if any(re.fullmatch(p, n) for p in patterns)}
     changed = True
     while changed:
@@ -237,7 +266,7 @@ def kernel_closure(patterns):
                 if re.search(r'(?<![\w])' + re.escape(o) + r'(?![\w])', b) or re.search(r'\.' + re.escape(meth) + r'(?![\w])', b):
                     sel.add(o)
                     changed = True
-    return sorted(sel)
+    return sorted(sel) + gl_sel
 
 
 def property_theorems(pid):
